@@ -149,7 +149,10 @@ impl<'a> Runner<'a> {
             let pre = match pre_state.unwrap() { Ok(s) => s, Err(e) => format!("ABSFAIL {}", e) };
             let post = match &post_state { Ok(s) => s.clone(), Err(e) => format!("ABSFAIL {}", e) };
             writeln!(self.out.req, "{} {} | {}", self.coll, op.text(), pre).unwrap();
-            writeln!(self.out.exp, "out={} | st={} | tr={}", out, post, tr).unwrap();
+            match self.real.abs_note() {
+                Some(n) => writeln!(self.out.exp, "out={} | st={} | tr={} | abs={}", out, post, tr, n).unwrap(),
+                None => writeln!(self.out.exp, "out={} | st={} | tr={}", out, post, tr).unwrap(),
+            }
             writeln!(self.out.ctx, "H{} {}", self.hid, self.ops.len() - 1).unwrap();
             self.out.lines += 1;
         }
@@ -269,16 +272,25 @@ impl<'a> Runner<'a> {
         let hp: Vec<&'static str> = if self.is_list { vec!["C13"] } else { vec!["C08"] };
         let np: Vec<&'static str> = if self.is_list { vec!["C13"] } else { vec!["C09"] };
         // ---- structure / slots (trees)
+        let mut broken = false;
         if let Some(st) = self.real.structure() {
             self.out.eval("C02");
-            if let Err(e) = st { self.fail(&["C02"], "red-black / search-tree / link invariant broken", "valid red-black search tree", &e); }
+            if let Err(e) = st {
+                self.fail(&["C02"], "red-black / search-tree / link invariant broken", "valid red-black search tree", &e);
+                broken = true;
+            }
         }
         let mut post_entries = vec![];
         if let Some(ab) = self.real.abs() {
             self.out.eval("C11");
             match ab {
-                Err(e) => { self.fail(&["C11", "C02"], "arena links / slot partition broken", "sentinel, tree and free list partition the arena", &e); return; }
+                Err(e) => { self.fail(&["C11", "C02"], "arena links broken", "mutually consistent parent/child links, sentinel linked nowhere", &e); self.dead = true; return; }
                 Ok(ab) => {
+                    if let Some(e) = &ab.slots_err {
+                        self.fail(&["C11"], "slot partition broken", "sentinel, tree and free list partition the arena", e);
+                        // a lost slot is harmless for what follows; a slot that is free and in use is not
+                        if !e.contains("(lost)") { broken = true; }
+                    }
                     let stored = ab.inorder.len();
                     self.refm.peak = self.refm.peak.max(stored);
                     let bound = self.cap.max(8).max(3 * (self.refm.peak + 1));
@@ -296,6 +308,8 @@ impl<'a> Runner<'a> {
         } else {
             post_entries = self.real.entries().unwrap_or_default();
         }
+        // do not keep using a collection whose structure is already broken (after the checks below)
+        if broken { self.dead = true; }
         let t_opt: Option<i64> = if self.expiring {
             match op.name.as_str() { "insert" => Some(a[3]), "fl" | "fle" | "fleby" | "get" | "export" => Some(a[0]), _ => None }
         } else { None };
